@@ -865,9 +865,24 @@ func restart(rec *Recorded, pl *Plan) (res *Result) {
 		if probe != nil {
 			probe.c.Close()
 		}
-		// the broker is stopped BEFORE its store goes away: a broker whose store is unreachable treats every failing
-		// session lookup of a disconnecting client as "no session" and issues DEL commands - with the store's port
-		// already re-used by the store of another restart they would hit that one
+		// Port hygiene (tens of thousands of restarts on a shared machine): the store is made to drop every redis
+		// connection itself (FailAfter(1) + two writes: the second one "crashes" it, it closes all its connections and
+		// refuses everything from then on), so the broker's pool never is the closing side and no client-side port
+		// lingers in TIME_WAIT.  The store keeps its listening port until the broker has stopped: a broker whose store
+		// is unreachable treats a failing session lookup of a disconnecting client as "no session" and issues DEL
+		// commands, which must not reach the store of another restart that re-used the port.
+		fake.FailAfter(1)
+		if c, err := net.DialTimeout("tcp", fake.Addr(), time.Second); err == nil {
+			c.Write([]byte("*2\r\n$3\r\nDEL\r\n$2\r\n~x\r\n*2\r\n$3\r\nDEL\r\n$2\r\n~x\r\n"))
+			c.SetReadDeadline(time.Now().Add(time.Second))
+			buf := make([]byte, 64)
+			for {
+				if _, err := c.Read(buf); err != nil {
+					break
+				}
+			}
+			c.Close()
+		}
 		if err := ub.stop(5 * time.Second); err != nil && res.Trouble == "" {
 			res.Trouble = "stop of the restarted broker: " + err.Error()
 		}
@@ -1153,6 +1168,7 @@ func main() {
 	plan := fs.String("plan", "", "restart: plan lines {h,k,req}")
 	out := fs.String("out", "", "output (ndjson)")
 	par := fs.Int("par", 16, "parallelism")
+	rate := fs.Int("rate", 0, "restart: at most this many restarts per second (0 = unlimited); bounds the sockets left in TIME_WAIT")
 	fs.Parse(os.Args[2:])
 	of, err := os.Create(*out)
 	if err != nil {
@@ -1245,10 +1261,16 @@ func main() {
 		}
 		var ndiv, ntrouble, checked int
 		var mu sync.Mutex
-		for _, p := range plans {
+		tStart := time.Now()
+		for i, p := range plans {
 			rec := recs[p.H]
 			if rec == nil {
 				die("plan refers to unknown history", p.H)
+			}
+			if *rate > 0 {
+				if due := tStart.Add(time.Duration(i) * time.Second / time.Duration(*rate)); time.Now().Before(due) {
+					time.Sleep(time.Until(due))
+				}
 			}
 			wg.Add(1)
 			sem <- struct{}{}
